@@ -267,6 +267,13 @@ func (b *bitstream) Next() error {
 		return &SyntaxError{msg, pos - 1}
 	}
 
+	if b.pos+length < b.pos {
+		// At the top level there is no enclosing length to check against; a length that
+		// makes the end offset wrap around cannot be honoured.
+		msg := fmt.Sprintf("value length %v overflows the stream offset", length)
+		return &SyntaxError{msg, pos - 1}
+	}
+
 	b.code = code
 	b.len = length
 	return nil
